@@ -279,11 +279,19 @@ Section Model.
   Definition comm_dev (n : nat) (X A : mat F) : F := maxabs Op n (msub Op (mmul Op n X A) (mmul Op n A X)).
   Definition diag_pos (n : nat) (X : mat F) : bool := forall_lt n (fun i => fltb Op zero (X i i)).
 
+  (* Rayleigh quotients on the columns v_k of a caller-supplied matrix V (the harness passes the recorded
+     eigenvectors): 0 < v^T X v <= bound * v^T v *)
+  Definition rayleigh_ok (n : nat) (X V : mat F) (bound : F) : bool :=
+    forall_lt n (fun k => let v := vmemo Op n (mcol V k) in
+                          let qf := qform Op n X v in
+                          fltb Op zero qf && fleb Op qf (bound * dot Op n v v)).
+
   (* C11: finite, symmetric within tol_s, positive diagonal, entries bounded by bound (the eigenvalue cap
-     eps^(-1/r) with slack, chosen by the caller), commutes with A within tol_c *)
-  Definition C11_checkb (n : nat) (A X : mat F) (tol_s tol_c bound : F) : bool :=
+     eps^(-1/r) with slack, chosen by the caller), commutes with A within tol_c, Rayleigh quotients on the
+     columns of V positive and at most bound *)
+  Definition C11_checkb (n : nat) (A X V : mat F) (tol_s tol_c bound : F) : bool :=
     mall_finite Op n X && fleb Op (sym_dev n X) tol_s && diag_pos n X
-    && fleb Op (maxabs Op n X) bound && fleb Op (comm_dev n X A) tol_c.
+    && fleb Op (maxabs Op n X) bound && fleb Op (comm_dev n X A) tol_c && rayleigh_ok n X V bound.
 
   (* C10: the defining equation of the inverse p/q-th root holds within tol *)
   Definition C10_checkb (n p q : nat) (A : mat F) (eps : F) (X : mat F) (tol tol_s : F) : bool :=
